@@ -629,7 +629,12 @@ func bFor(intp *Interpreter) error {
 		} else if err != nil {
 			return err
 		}
-		val += increment
+		next := val + increment
+		if increment > 0 && next < val || increment < 0 && next > val {
+			// the next value is beyond the integer range, and so beyond the limit
+			break
+		}
+		val = next
 	}
 	return nil
 }
